@@ -499,7 +499,19 @@ static void doExecLine(vx_cmd* c)
 		else if (strcmp(scheme, "g12s") == 0) { g12s_params* p = (g12s_params*)xalloc(sizeof(*p)); loadG12s(p, c); e = g12sParamsVal(p); free(p); }
 		else if (strcmp(scheme, "stb99") == 0) { stb99_params* p = (stb99_params*)xalloc(sizeof(*p)); loadStb99(p, c); e = stb99ParamsVal(p); free(p); }
 		else if (strcmp(scheme, "pfok") == 0) { pfok_params* p = (pfok_params*)xalloc(sizeof(*p)); loadPfok(p, c); e = pfokParamsVal(p); free(p); }
-		else if (strcmp(scheme, "dstu") == 0) { dstu_params* p = (dstu_params*)xalloc(sizeof(*p)); loadDstu(p, c); e = dstuParamsVal(p); free(p); }
+		else if (strcmp(scheme, "dstu") == 0)
+		{
+			dstu_params* p = (dstu_params*)xalloc(sizeof(*p)); loadDstu(p, c);
+			if (vxArg(c, "gen"))
+			{
+				/* the standard leaves the base point to the user: generate it as dstu.h prescribes (seeded COMBO generator) */
+				octet* st = (octet*)xalloc(prngCOMBO_keep()); size_t no = O_OF_B(p->p[0]); err_t g;
+				prngCOMBOStart(st, (u32)vxInt(c, "gen", 1));
+				g = dstuPointGen(p->P, p, prngCOMBOStepR, st);
+				jInt("rcGen", g); jOct("Px", p->P, no); jOct("Py", p->P + no, no); free(st);
+			}
+			e = dstuParamsVal(p); free(p);
+		}
 		jInt("rc", e);
 	}
 	else if (strcmp(op, "pubkeyVal") == 0 && scheme)
